@@ -183,6 +183,8 @@ def body_contain(case, note):
     objs = [build(r, memo) for r in roots]
     out = h.TagList(*objs).get_html_string(indent, eol)
     rs = check_containment(out, roots, "TagList.get_html_string")
+    check_containment(h.TagList(*objs).render()["html"], roots, "TagList.render()['html']")
+    check_containment(str(h.TagList(*objs)), roots, "str(TagList)")
     for r, o in zip(roots, objs):
         if r["k"] == "tag":
             check_containment(o.get_html_string(indent, eol), [r], "Tag.get_html_string")
